@@ -25,7 +25,7 @@ def case(name, prog, bad=None, rule=None, known=None, accept=False, note=""):
 
 INT1 = ('fn', (('d', 'int'),), 'd', 'int')
 STR1 = ('fn', (('d', 'int'),), 'd', 'string')
-# --- known finding 1: function-typed parameter of a function-typed parameter
+# --- former known finding (repaired in /repo 186dfd9): function-typed parameter of a function-typed parameter
 call = CALL('apply', ID('k'))
 case("known_fn_inner_result",
      Prog([], [FN('apply', [P('h', 'd', ('fn', (('d', INT1),), 'd', 'int'))], 'd', 'int',
@@ -33,7 +33,8 @@ case("known_fn_inner_result",
                   CALL('h', ID('inc'))),
                FN('k', [P('g', 'd', STR1)], 'd', 'int', CALL('prints', BIN('add', CALL('g', I(1)), S("\\n"))), I(0)),
                FN('main', [], 'd', 'int', call)]),
-     known="call_kind_inner_fn", note="apply(k): k's parameter returns string where (int) -> int is required; runs with type confusion")
+     call, 'callMismatch',
+     note="regression for 186dfd9: apply(k), k's parameter returns string where (int) -> int is required (the pinned tree accepted it and ran with an int used as a string)")
 # --- known finding 2: match with no guard at all
 case("known_match_empty",
      Prog([D('enum', 'E', [['A', 0], ['B', 0]])],
@@ -84,6 +85,11 @@ case("accept_field_of_let_record",
 case("accept_int_from_double",
      Prog([], [FN('main', [], 'd', 'int', VAR('i', I(1)), VAR('d', N('d', '2.5d')), ASS(ID('i'), ID('d')), I(0))]), accept=True,
      note="numeric kinds convert on assignment; the wrong run-time tag of this cell is C11/C01's finding, not a typing fault")
+
+case("accept_int_from_double_result_is_int",
+     Prog([], [FN('main', [], 'd', 'int', VAR('i', I(1)), VAR('d', N('d', '2.5d')),
+                  VAR('j', BIN('mod', N('sup', ASS(ID('i'), ID('d'))), I(2))), ID('j'))]), accept=True,
+     note="(i = d) has the LEFT kind int, so `% 2` applies (8e26181; the pinned tree typed the assignment double and rejected this)")
 
 os.makedirs(OUT, exist_ok=True)
 for name, prog, bad, rule, known, accept, note in cases:
